@@ -82,12 +82,18 @@ func checkC01(w *World, r *Recorder) propInfo {
 		}
 		n++
 		rep := validatingWalk(w, fn, func(s ssa.Value) bool { return loadsField(s, "values") }, baseName(fn) == "Values")
+		if !rep.OK && baseName(fn) == "Values" {
+			if alt := validatedThenCopied(w, fn, func(s ssa.Value) bool { return loadsField(s, "values") }); alt.OK {
+				rep = alt
+			}
+		}
 		pos := w.FnPos(fn)
 		if rep.Pos != nil {
 			pos = w.InstrPos(rep.Pos)
 		}
 		r.Check(rep.OK, "C01-R3", fnKey(fn), pos, rep.Detail, "container walk: "+rep.Why)
 	}
+	ruleIsEmptyMeansNoEntries(w, r, "C01-R3")
 	if f := root.Func("ValidateSwComponents"); f != nil {
 		rep := validatingWalk(w, f, func(s ssa.Value) bool { return s == ssa.Value(f.Params[0]) }, false)
 		pos := w.FnPos(f)
@@ -100,7 +106,7 @@ func checkC01(w *World, r *Recorder) propInfo {
 	// ---------- R4 ----------
 	c01ReadsNothingElse(w, r, ic)
 
-	r.Floor("C01-R1", 20)
+	r.Floor("C01-R1", 4)
 	r.Floor("C01-R2", 25)
 	r.Floor("C01-R3", 3)
 	r.Floor("C01-R4", 3)
